@@ -72,6 +72,14 @@ type Frame struct {
 	entryHeap map[*Object]interface{}
 	loops     *loopInfo
 	phisDone  bool
+	symIters  int
+	callResults map[string]Value
+	entrySnap map[int]*loopSnap // per loop ordinal: locals and heap at loop entry (for atentry())
+}
+
+type loopSnap struct {
+	names map[string]nameRef
+	heap  map[*Object]interface{}
 }
 
 type State struct {
@@ -110,6 +118,18 @@ func (s *State) clone() *State {
 		nf.visits = make(map[*ssa.BasicBlock]int, len(f.visits))
 		for k, v := range f.visits {
 			nf.visits[k] = v
+		}
+		if f.callResults != nil {
+			nf.callResults = make(map[string]Value, len(f.callResults))
+			for k, v := range f.callResults {
+				nf.callResults[k] = v
+			}
+		}
+		if f.entrySnap != nil {
+			nf.entrySnap = make(map[int]*loopSnap, len(f.entrySnap))
+			for k, v := range f.entrySnap {
+				nf.entrySnap[k] = v
+			}
 		}
 		n.stack = append(n.stack, &nf)
 	}
@@ -196,6 +216,8 @@ type Engine struct {
 	leafClass     []leafClass
 	curProp       string
 	pruneCalls    int
+	seqArrays     map[string][]*Term
+	probing       bool
 }
 
 type leafClass struct {
